@@ -32,14 +32,14 @@ META = {
         'degenerate rectangles and every sprite width 1..18, 31..33, 63..65, 70 at 8 horizontal alignments.'),
     'level_note': (
         'Every coordinate form is covered (absolute, STEP on the first / second / both points, omitted first point, PSET/PRESET STEP, GET ..-STEP, CIRCLE STEP compared with its absolute form) after a history statement moved the last referenced point; that point is OBSERVED through POINT(0)/POINT(1), the second point with STEP is taken relative to the first (GW-BASIC manual), and POINT(0)/POINT(1) afterwards must be the last point the statement referenced (key coord:last-point-after:<PRIM>). The statement does not pin WHICH 8-connected path a line takes (rounding), nor default colours, styles or clipped cases: not tested. '
-        'GET may legitimately refuse a rectangle (Tandy SCREEN 6 reads twice the width): a refused GET/PUT pair is counted (sprite_rejected) '
+        'PUT is also checked pixel by pixel for every action verb and for the omitted verb (= XOR) on the random background: target := op(target, image) with the image taken from the snapshot of the GET rectangle (verb semantics from the GW-BASIC manual; the width GET records per requested pixel is observed once per session, 2 in Tandy/PCjr SCREEN 6). GET may legitimately refuse a rectangle (Tandy SCREEN 6 reads twice the width): a refused GET/PUT pair is counted (sprite_rejected) '
         'and only the literal clause (screen unchanged / restored) is checked. Trusted: page-buffer read (validated against Session.get_pixels), '
         'determinism of a statement executed twice.'),
     'rule': ('case = (mode, primitive, coordinates, colours[, sprite source rectangle]); distinct by that tuple; non-trivial = the statement '
              'ran without error and (for sprites) covered at least one pixel; background contents differ for every case'),
     'design_ref': 'DESIGN.md section 4 C31',
     'assumptions': ['a statement repeated with another colour draws the same pixel set'],
-    'require_counters': {'any': ['form_step_abs', 'form_abs_step', 'form_omit_abs', 'form_omit_step', 'form_step_step', 'form_pset_step', 'form_get_step', 'circle_step_cases', 'last_point_elsewhere', 'last_point_matched', 'history_nonzero_page', 'history_mode_change_keeping_pages', 'history_active_ne_visible', 'pset_cases', 'line_cases', 'lines_steep', 'lines_shallow', 'lines_diagonal', 'lines_axis_parallel',
+    'require_counters': {'any': ['verb_pset', 'verb_preset', 'verb_and', 'verb_or', 'verb_xor', 'verb_omitted', 'verb_cases_changing_pixels', 'xor_twice_verb_omitted', 'form_step_abs', 'form_abs_step', 'form_omit_abs', 'form_omit_step', 'form_step_step', 'form_pset_step', 'form_get_step', 'circle_step_cases', 'last_point_elsewhere', 'last_point_matched', 'history_nonzero_page', 'history_mode_change_keeping_pages', 'history_active_ne_visible', 'pset_cases', 'line_cases', 'lines_steep', 'lines_shallow', 'lines_diagonal', 'lines_axis_parallel',
                                  'box_cases', 'boxfill_cases', 'getput_cases', 'xor_cases', 'xor_changed_seen',
                                  'sprite_width_not_multiple_of_8', 'bpp_1', 'bpp_2', 'bpp_4', 'point_matched']},
     'timeout': {'quick': 900, 'thorough': 3600},
@@ -218,6 +218,92 @@ class Ctx(object):
                           '%s: last point %r: %s drew %d pixels, CIRCLE(%d,%d),%d drew %d' % (
                               g.mode['label'], lp, case['stmt'], len(d1), centre[0], centre[1], r, len(d2)), case)
 
+    # -- PUT action verbs -----------------------------------------------------------------
+    VERBS = [b',PSET', b',PRESET', b',AND', b',OR', b',XOR', b'']
+
+    def width_factor(self):
+        """
+        How many pixels wide is the image GET records for a rectangle asked n wide?  OBSERVED once per
+        session on a prepared patch (uniform source, zero target) - 1 everywhere except Tandy/PCjr
+        SCREEN 6, whose GET reads twice the width.  None if it cannot be established.
+        """
+        g = self.g
+        if hasattr(g, 'wf'):
+            return g.wf
+        g.wf = None
+        c = g.nattr - 1
+        if g.direct(b'LINE(0,0)-(63,3),0,BF:LINE(0,6)-(63,7),%d,BF:GET(0,6)-(7,7),A%%' % c) == 0:
+            s0 = g.active()
+            if g.direct(b'PUT(0,0),A%,PSET') == 0:
+                d = gfx.diff_points(s0, g.active(), g.w, g.h)
+                if d:
+                    xs, ys = [p[0] for p in d], [p[1] for p in d]
+                    wpx = max(xs) + 1
+                    if min(xs) == 0 and min(ys) == 0 and max(ys) == 1 and wpx % 8 == 0 and len(d) == 2 * wpx:
+                        g.wf = wpx // 8
+        return g.wf
+
+    def put_verb(self, rng, src, dst, verb):
+        """
+        GET src=(x0,y0,sw,sh), then PUT dst=(x,y) with `verb` on the (random, non-blank) background: the page
+        must become  old with the target rectangle replaced by  op(old target, source image)  pixel by pixel:
+        PSET image, PRESET image XOR highest attribute, AND / OR / XOR bitwise, no verb = XOR (GW-BASIC manual).
+        """
+        g, res = self.g, self.res
+        wf = self.width_factor()
+        if wf is None:
+            res.count('verb_oracle_skipped')
+            return
+        x0, y0, sw, sh = src
+        ew = wf * sw
+        dx, dy = dst
+        if x0 + ew > g.w or dx + ew > g.w or y0 + sh > g.h or dy + sh > g.h:
+            return
+        name = verb[1:].decode() if verb else 'omitted'
+        case = {'mode': g.mode['label'], 'prim': 'PUT ' + name, 'get': [x0, y0, x0 + sw - 1, y0 + sh - 1], 'put': [dx, dy], 'width_factor': wf}
+        s0 = g.active()
+        stmt = b'PUT(%d,%d),A%%' % (dx, dy) + verb
+        try:
+            c1 = g.direct(b'GET(%d,%d)-(%d,%d),A%%' % (x0, y0, x0 + sw - 1, y0 + sh - 1))
+            c2 = g.direct(stmt) if not c1 else 0
+        except harness.Internal as e:
+            res.violation(e.key, '%s: GET/PUT %r: %s' % (g.mode['label'], case, e), case)
+            raise
+        if c1 or c2:
+            res.count('sprite_rejected')
+            res.case(('verb', (g.mode['label'], g.apage, g.vpage), src, dst, name), nontrivial=False)
+            return
+        s1 = g.active()
+        w = g.w
+        top = g.nattr - 1
+        exp = bytearray(s0)
+        for r in range(sh):
+            so, do = (y0 + r) * w + x0, (dy + r) * w + dx
+            S, B = s0[so:so + ew], s0[do:do + ew]
+            if name == 'PSET':
+                row = S
+            elif name == 'PRESET':
+                row = bytes(v ^ top for v in S)
+            elif name == 'AND':
+                row = bytes(a & b for a, b in zip(B, S))
+            elif name == 'OR':
+                row = bytes(a | b for a, b in zip(B, S))
+            else:
+                row = bytes(a ^ b for a, b in zip(B, S))
+            exp[do:do + ew] = row
+        exp = bytes(exp)
+        res.case(('verb', (g.mode['label'], g.apage, g.vpage), src, dst, name))
+        res.count('verb_' + name.lower())
+        if exp != s0:
+            res.count('verb_cases_changing_pixels')
+        if s1 != exp:
+            d = gfx.diff_points(exp, s1, g.w, g.h, limit=4)
+            x, y = d[0]
+            res.violation('sprite:verb:' + name,
+                          '%s: GET(%d,%d)-(%d,%d), %s: pixel (%d,%d) is %d, expected %d (was %d); %d+ pixels wrong' % (
+                              g.mode['label'], x0, y0, x0 + sw - 1, y0 + sh - 1, stmt.decode(), x, y, s1[y * w + x], exp[y * w + x],
+                              s0[y * w + x], len(d)), case)
+
     # -- primitives ----------------------------------------------------------------------
     def pset(self, rng, x, y, form=None):
         g, res = self.g, self.res
@@ -351,7 +437,11 @@ class Ctx(object):
             else:
                 c_get = g.direct(b'GET(%d,%d)-(%d,%d),A%%' % src)
             if xor:
-                put = b'PUT(%d,%d),A%%,XOR' % dst
+                # the action verb may be left out: XOR is the default (GW-BASIC manual)
+                omitted = rng.random() < 0.4
+                put = b'PUT(%d,%d),A%%' % dst + (b'' if omitted else b',XOR')
+                if omitted:
+                    res.count('xor_twice_verb_omitted')
                 c_put1 = g.direct(put)
                 s1 = g.active()
                 c_put2 = g.direct(put)
@@ -379,7 +469,7 @@ class Ctx(object):
                 res.count('xor_changed_seen')
             if s2 != s0:
                 d = gfx.diff_points(s0, s2, g.w, g.h, limit=6)
-                res.violation('sprite:xor-twice-not-restored',
+                res.violation('sprite:omitted-verb-twice-not-restored' if put.endswith(b'A%') else 'sprite:xor-twice-not-restored',
                               '%s: GET%r, %s twice: %d+ pixels differ from the original, e.g. %r' % (
                                   g.mode['label'], src, put.decode(), len(d), d[:4]), case)
         else:
@@ -520,7 +610,10 @@ def random_case(ctx, rng):
             dst = (rng.randint(0, g.w - 2 * sw), rng.randint(0, g.h - sh))
         else:
             dst = (rng.randint(0, g.w - sw), rng.randint(0, g.h - sh))
-        ctx.sprite(rng, src, dst, xor, step=rng.random() < 0.3)
+        if rng.random() < 0.45:
+            ctx.put_verb(rng, (min(xs), min(ys), sw, sh), dst, rng.choice(ctx.VERBS))
+        else:
+            ctx.sprite(rng, src, dst, xor, step=rng.random() < 0.3)
         if rng.random() < 0.2:
             r = rng.randint(0, 25)
             ctx.circle_step(rng, (rng.randint(r + 20, g.w - r - 21) if g.w > 2 * r + 42 else g.w // 2, rng.randint(r + 1, g.h - r - 2)), r)
@@ -602,6 +695,14 @@ def directed_forms(ctx):
                 ctx.pset(rng, x, y, form=(word, step))
     for (c, r) in [((cx, cy), 9), ((40, 30), 0), ((w - 30, h - 25), 20), ((cx - 20, cy + 10), 3)]:
         ctx.circle_step(rng, c, r)
+    # every action verb and the omitted verb, several widths and alignments, overlapping and distant targets
+    k = 0
+    for verb in ctx.VERBS:
+        for sw in (1, 5, 8, 13, 16, 33):
+            k += 1
+            x0, y0 = 30 + k % 8, 12 + (k * 5) % 40
+            ctx.put_verb(rng, (x0, y0, sw, 4), (x0 + 3, y0 + 2), verb)
+            ctx.put_verb(rng, (x0, y0, sw, 3), (9 + (k * 3) % 8, h - 30 - k % 5), verb)
     for (x0, y0, sw, sh) in [(40, 20, 13, 5), (47, 33, 8, 8), (60, 50, 1, 1), (33, 41, 17, 2)]:
         ctx.sprite(rng, (x0, y0, x0 + sw - 1, y0 + sh - 1), (x0, y0), xor=False, step=True)
         ctx.sprite(rng, (x0 + sw - 1, y0 + sh - 1, x0, y0), (x0, y0), xor=False, step=True)
